@@ -143,3 +143,81 @@ func init() {
 		return TupleV{&PtrV{Obj: o}, &IfaceV{}}
 	}
 }
+
+// ---- X25519 model: a key pair is identified by 32 arbitrary bytes (public
+// bytes == private bytes as an identifier); the shared secret is an
+// uninterpreted commutative function of the two identifiers, so
+// ECDH(a, pub(b)) == ECDH(b, pub(a)) and nothing else is known about it. ----
+
+func (p *Path) fieldObj(o *Object, name string) *Object {
+	st := o.Typ.Underlying().(*types.Struct)
+	for i := 0; i < st.NumFields(); i++ {
+		if st.Field(i).Name() == name {
+			return o.Fields[i]
+		}
+	}
+	p.unsupported("field %s not found in %s", name, o.Typ)
+	return nil
+}
+
+func (p *Path) first64(s *SliceV) *Term {
+	tc := p.tc
+	var t *Term
+	for i := 0; i < 8; i++ {
+		b := p.readElem(s.Obj, tc.BvAdd(s.Off, tc.Const(64, uint64(i))))
+		if t == nil {
+			t = b
+		} else {
+			t = tc.Concat(t, b)
+		}
+	}
+	return t
+}
+
+func init() {
+	byteSlice := func(p *Path, o *Object, n uint64) *SliceV {
+		c := p.tc.Const(64, n)
+		return &SliceV{Obj: o, Off: p.tc.Const(64, 0), Len: c, Cap: c}
+	}
+	intrinsics["(*crypto/ecdh.x25519Curve).GenerateKey"] = func(p *Path, fn *ssa.Function, args []Value) Value {
+		privT := fn.Signature.Results().At(0).Type().(*types.Pointer).Elem()
+		priv := p.newObject(privT, "x25519priv")
+		pubField := p.fieldObj(priv, "publicKey")
+		pubT := pubField.Typ.(*types.Pointer).Elem()
+		pub := p.newObject(pubT, "x25519pub")
+		id := p.newByteStore(types.Typ[types.Uint8], 8, p.tc.Const(64, 32), true, "x25519id")
+		p.storeObj(p.fieldObj(priv, "privateKey"), byteSlice(p, id, 32))
+		p.storeObj(p.fieldObj(pub, "publicKey"), byteSlice(p, id, 32))
+		p.storeObj(pubField, &PtrV{Obj: pub})
+		p.note("X25519 idealised: key pair = 32 arbitrary identifier bytes; shared secret = uninterpreted commutative function of both identifiers")
+		return TupleV{&PtrV{Obj: priv}, &IfaceV{}}
+	}
+	intrinsics["(*crypto/ecdh.x25519Curve).NewPublicKey"] = func(p *Path, fn *ssa.Function, args []Value) Value {
+		key := args[1].(*SliceV)
+		pubT := fn.Signature.Results().At(0).Type().(*types.Pointer).Elem()
+		if !p.branch(p.tc.Eq(key.Len, p.tc.Const(64, 32))) {
+			return TupleV{&PtrV{}, p.sentinelError("crypto/ecdh: invalid public key")}
+		}
+		pub := p.newObject(pubT, "x25519pub")
+		cp := p.newByteStore(types.Typ[types.Uint8], 8, p.tc.Const(64, 32), false, "x25519pubbytes")
+		p.copyElems(cp, p.tc.Const(64, 0), key.Obj, key.Off, p.tc.Const(64, 32))
+		p.storeObj(p.fieldObj(pub, "publicKey"), byteSlice(p, cp, 32))
+		return TupleV{&PtrV{Obj: pub}, &IfaceV{}}
+	}
+	intrinsics["(*crypto/ecdh.PrivateKey).ECDH"] = func(p *Path, fn *ssa.Function, args []Value) Value {
+		priv, remote := args[0].(*PtrV), args[1].(*PtrV)
+		p.nilCheck(priv, "ECDH on nil private key")
+		p.nilCheck(remote, "ECDH with nil public key")
+		tc := p.tc
+		a := p.first64(p.loadObj(p.fieldObj(priv.Obj, "privateKey")).(*SliceV))
+		b := p.first64(p.loadObj(p.fieldObj(remote.Obj, "publicKey")).(*SliceV))
+		lo := tc.Ite(tc.Ult(a, b), a, b)
+		hi := tc.Ite(tc.Ult(a, b), b, a)
+		s := tc.UF("x25519_shared", BV(64), lo, hi)
+		out := p.newByteStore(types.Typ[types.Uint8], 8, tc.Const(64, 32), false, "x25519shared")
+		for i := 0; i < 8; i++ {
+			p.writeElem(out, tc.Const(64, uint64(i)), tc.Extract(s, 63-8*i, 56-8*i))
+		}
+		return TupleV{byteSlice(p, out, 32), &IfaceV{}}
+	}
+}
